@@ -3,11 +3,15 @@ import GrpcModel.Model.MdWire
 /-!
 component `s_mdwire` (C09), one real RPC per op (see harness/synct/c_mdwire_test.go):
 
-    rpc|probe <path> <md> <added> <hapi> <hmd> <tapi> <tmd> <code>
-    → st=<ok|code> in=<md|!> hdr=<md> trl=<md> h=<…> t=<…>
+    rpc|probe|probeae <path> <md> <added> <hapi> <hmd> <tapi> <tmd> <code>
+    → st=<ok|code> in=<md|!> hdr=<md> trl=<md> h=<…> t=<…> ae=<hex|->
 
-`probe` is `rpc` with the content-type clause of the monitor switched on (known finding F17 is
-reported on probe ops only, so that it cannot mask other violations on every single RPC).
+`ae` is the grpc-accept-encoding value the client transport of THIS harness binary sends (the
+compressors registered in the process; other components of the merged binary register some). It
+is an input of the model (`CallCfg.acceptEncoding`), read from the implementation's line.
+`probe` is `rpc` with the content-type clause of the monitor switched on (known finding F17),
+`probeae` is `rpc` with the grpc-accept-encoding clause switched on (known finding F30): both
+leaks happen on every single RPC and are judged on these dedicated ops only.
 -/
 namespace GrpcModel.Driver.S_mdwire
 open GrpcModel.Driver GrpcModel.Status GrpcModel.Headers GrpcModel.MdWire
@@ -55,6 +59,7 @@ def showMD (md : MD) : String :=
 
 structure Op where
   probe : Bool
+  probeAE : Bool
   path : String
   mdGiven : Bool
   md : MD
@@ -68,16 +73,22 @@ structure Op where
 def parseOp (fs : List String) : Option Op :=
   match fs with
   | [verb, path, md, added, hapi, hmd, tapi, tmd, code] => do
-    if verb ≠ "rpc" ∧ verb ≠ "probe" then none
+    if verb ≠ "rpc" ∧ verb ≠ "probe" ∧ verb ≠ "probeae" then none
     if !(["u", "b0", "b1"].contains path) then none
     if !(["none", "ss.set", "ss.send", "ctx.set", "ctx.send"].contains hapi) then none
     if !(["none", "ss.set", "ctx.set"].contains tapi) then none
-    pure ⟨verb = "probe", path, md ≠ "-", ← parseMD md, ← parsePairs added, hapi, ← parseMD hmd, tapi, ← parseMD tmd, ← code.toNat?⟩
+    pure ⟨verb = "probe", verb = "probeae", path, md ≠ "-", ← parseMD md, ← parsePairs added, hapi, ← parseMD hmd, tapi, ← parseMD tmd, ← code.toNat?⟩
   | _ => none
 
-def cfg : CallCfg :=
+def cfg0 : CallCfg :=
   { scheme := asciiBytes "http", path := asciiBytes "/v.S/X", authority := asciiBytes "bufnet",
     subtype := asciiBytes "proto", userAgent := asciiBytes "UA" }
+
+/-- the `ae=` token of the implementation's line: what this binary's transport advertises -/
+def aeOf (impl : String) : Bytes :=
+  match (impl.splitOn " ").find? (·.startsWith "ae=") with
+  | some t => (unhex (t.drop 3).toString).getD []
+  | none => []
 
 def showCode (c : Nat) : String := if c = 0 then "ok" else toString c
 
@@ -88,22 +99,25 @@ structure Out where
   trl : String := "-"
   h : String := "-"
   t : String := "-"
+  ae : String := "-"
 
-def Out.show (o : Out) : String := s!"st={o.st} in={o.inMD} hdr={o.hdr} trl={o.trl} h={o.h} t={o.t}"
+def Out.show (o : Out) : String := s!"st={o.st} in={o.inMD} hdr={o.hdr} trl={o.trl} h={o.h} t={o.t} ae={o.ae}"
 
 def asciiKeys (o : Op) : Bool := o.added.all fun p => p.1.all (· < 128)
 
-/-- The whole RPC on the model. -/
-def model (o : Op) : Out :=
+/-- The whole RPC on the model; `ae` = the accept-encoding value of this binary's transport. -/
+def model (o : Op) (ae : Bytes) : Out :=
+  let cfg : CallCfg := { cfg0 with acceptEncoding := ae }
+  let aeS := hex ae
   let added := appendToOutgoing o.added
   match clientSend cfg o.md added with
-  | none => { st := "13", inMD := "!" }
+  | none => { st := "13", inMD := "!", ae := aeS }
   | some fields =>
     match serverRecv fields with
-    | .rstProtocol => { st := "13", inMD := "!" }
+    | .rstProtocol => { st := "13", inMD := "!", ae := aeS }
     | .earlyAbort c =>
       -- trailers-only response written by writeEarlyAbort: :status, content-type, grpc-status, grpc-message
-      { st := showCode c, inMD := "!", trl := showMD [(hContentType, [contentTypeOf cfg.subtype])] }
+      { st := showCode c, inMD := "!", trl := showMD [(hContentType, [contentTypeOf cfg.subtype])], ae := aeS }
     | .handler inMD =>
       let isStream := o.path ≠ "u"
       -- trailer API
@@ -126,7 +140,7 @@ def model (o : Op) : Out :=
       let replies := o.path = "b1" ∨ (o.path = "u" ∧ o.code = 0)
       let headerSent := sendNow || decide replies || !header.isEmpty
       let st : Status := if o.code = 0 then ⟨0, [], []⟩ else ⟨o.code, [115], []⟩
-      let base : Out := { st := "", inMD := showMD inMD, h := hres, t := tres }
+      let base : Out := { st := "", inMD := showMD inMD, h := hres, t := tres, ae := aeS }
       let hdrRes : HdrRes := if headerSent then clientHeaders (headerFrame cfg.subtype header) else .md []
       match hdrRes with
       | .fail c => { base with st := showCode c }
@@ -141,7 +155,7 @@ def model (o : Op) : Out :=
 
 def parseOut (s : String) : Option (String × String × String × String) :=
   match s.splitOn " " with
-  | [a, b, c, d, _, _] =>
+  | [a, b, c, d, _, _, _] =>
     if a.startsWith "st=" ∧ b.startsWith "in=" ∧ c.startsWith "hdr=" ∧ d.startsWith "trl=" then
       some ((a.drop 3).toString, (b.drop 3).toString, (c.drop 4).toString, (d.drop 4).toString)
     else none
@@ -164,6 +178,8 @@ def monitor (o : Op) (impl : String) : String :=
   match parseOut impl with
   | none => "VIOL unparsable harness output"
   | some (st, inS, hdrS, trlS) =>
+    let cfg := cfg0
+    let ae := aeOf impl
     let added := appendToOutgoing o.added
     if !asciiKeys o then "-" else
     if !validOutgoing o.md added then
@@ -183,6 +199,16 @@ def monitor (o : Op) (impl : String) : String :=
       | _, _, some k => "VIOL reserved header surfaced in client Trailer(): " ++ hex k
       | none, none, none =>
         -- what the handler saw, minus what the transport is allowed to add
+        -- grpc-accept-encoding: the transport's own value (when compressors are registered) comes first
+        -- under that key, then the user's values for it; the transport's share is taken off here and,
+        -- on `probeae` ops, reported (F30: a transport header surfaced as user metadata)
+        let aeSeen := mdGet inMD hAcceptEncoding
+        let aeLeak := !ae.isEmpty && aeSeen.head? == some ae
+        let inMD := if aeLeak then
+            (if aeSeen.length ≤ 1 then dropKey inMD hAcceptEncoding
+             else inMD.map fun kv => if kv.1 = hAcceptEncoding then (kv.1, kv.2.drop 1) else kv)
+          else inMD
+        if o.probeAE ∧ aeLeak then "VIOL transport header grpc-accept-encoding surfaced to the handler: " ++ hex ae else
         let seen := dropKey (dropKey (dropKey inMD hAuthority) hUserAgent) hContentType
         -- the two whitelisted names must carry the transport's own values only ("not sent from user metadata")
         if mdGet inMD hAuthority ≠ [cfg.authority] then "VIOL :authority seen by the handler is not the transport's: " ++ showMD [(hAuthority, mdGet inMD hAuthority)]
@@ -210,7 +236,7 @@ def monitor (o : Op) (impl : String) : String :=
 def step : Step Unit := fun _ fs impl =>
   match parseOp fs with
   | none => ((), "bad-op", "-")
-  | some o => ((), if asciiKeys o then (model o).show else "*", monitor o impl)
+  | some o => ((), if asciiKeys o then (model o (aeOf impl)).show else "*", monitor o impl)
 
 def run : IO Unit := Driver.run () step
 
